@@ -3,6 +3,16 @@ package main
 // Per-property driver configuration. rule/assumptions go verbatim into the
 // evidence file; the counts next to them are measured by the test processes.
 var props = map[string]propCfg{
+	"C16": {
+		race: true,
+		rule: "built with -race, the Go race detector is part of the oracle (every report is read back from GORACE log_path, attributed to the case that just ran and classified by the two racing goja functions). programs: one Program (G-syntax program biased to reference-holding constructs plus 1-4 hand-written fragments: stateful g/y regex literals of both engines, tagged templates, classes with private names/static blocks, eval/with dynamic scopes, constant folding, literal tables, lexical switch, source positions, run-time compilation) compiled once by Compile/MustCompile/Parse+CompileAST and run m in 1..20 times by each of n in {2,4,8,16} goroutines on runtimes of their own, released by one barrier and not synchronised afterwards; every observation (completion value or thrown value through a fixed describe function, tracked globals, log array) must equal that of an isolated sequential run (of the Program itself or of a separately compiled twin) and of one more sequential run afterwards; non-trivial = compiled, not excluded, the bytecode holds at least one regexp/template/class/private-name/dynamic-scope instruction and at least 2 goroutines' run intervals overlapped. prims: 2-9 primitive Values (ToValue of Go strings of 15..64 bytes still unscanned, concatenations of them, StringFromUTF16, JSON.stringify results, numbers, booleans, BigInts, NewSymbol/well-known/script-made symbols, Undefined/Null/NaN) made once and handed by vm.Set to n goroutines that apply 4-14 generated JS operations and 2-10 Go API calls, results compared with the same operations applied sequentially to separately built equal values; non-trivial = at least one shared value was an unscanned imported string. xrt: every (28 object kinds of runtime A) x (14 conversion routes into runtime B) pair must raise the documented TypeError. distinct = FNV-64 of the whole case",
+		assumptions: []string{
+			"the race detector is happens-before based: it reports unsynchronised conflicting accesses that executed in the run, whatever their interleaving; a race in code no generated case executes is not seen",
+			"result comparison needs a deterministic program: Date is replaced by a fixed clock and Math.random by a constant in the case environment; a case whose sequential run is interrupted by the 1.5 s watchdog, takes more than 500 ms, or panics (C01 territory), or whose two isolated sequential runs differ, is excluded and counted; a concurrent phase exceeding 25 s is interrupted and excluded (programs) or waited for (prims) - the wall clock never creates a verdict",
+			"a foreign *Object passed directly as a goja.Value argument of a Callable involves no conversion and is not covered by the documented rejection; it is not asserted",
+			"the goroutine-overlap figure used by the non-triviality rule is measured with the monotonic clock (evidence only, never a verdict)",
+		},
+	},
 	"C09": {
 		rule: "generator bodies from a grammar with yield / yield* (to generators, to instrumented iterators with or without return/throw, to arrays) in statement, operand, call-argument, computed-key, destructuring-default, for-head, switch, conditional and template positions, inside try/catch/finally and loops, with closures over locals read after resumption, driven by histories of up to 6 next(v)/throw(e)/return(v) calls; one quarter of the bodies are async functions with await in place of yield (awaiting values, promises, rejected promises and thenables). Oracle 1: records, thrown values and the side-effect log equal the generator state machine / promise job queue of refjs. Oracle 2 (metamorphic, no interpreter): the same history issued from call depth 1..20 gives the same observation. Non-trivial = the history contains a throw()/return() call or the body is async; distinct = FNV-64 of the printed source and depth",
 		assumptions: []string{
